@@ -8,13 +8,14 @@ def check(run):
     from checks import _tree_theorems
     run.prove(_tree_theorems.C15)
     rng = run.rng
+    treegen.init_special(run.harness())      # empty-subtree roots as leaf values
     quick = run.tier == "quick"
     nseq = 120 if quick else 1200
     kinds = ["set", "set", "del", "del", "app", "app", "range", "batch"]
 
     def extra(rng, cap, depth):
         return ["empty", "next"]
-    for backend in treegen.BACKENDS:
+    for backend in treegen.BACKENDS + treegen.GENERIC:
         seqs = []
         for k in range(nseq):
             depth = rng.choice([2, 3, 4, 5, 6] if quick else [2, 3, 4, 5, 6, 7, 8])
@@ -42,6 +43,53 @@ def check(run):
             s += ["batch 0x0 - -", "empty", "root"]
             seqs.append(s)
         run.differential(f"empty-{backend}", seqs)
+    # ---- trees created with an initial leaf other than the hasher's default leaf (no model instance for this configuration): the
+    #      listing depends on what was DONE to a position, not on the value it holds — also when the value written is the initial leaf
+    #      itself or the default leaf. Oracle: the specification's bookkeeping (ops below are replayed in Python), Full = Optimal.
+    zkh = run.harness()
+    bad = 0
+    for k in range(30 if quick else 300):
+        depth = rng.choice([2, 3, 4])
+        cap = 1 << depth
+        init = rng.choice([1, 7, rng.getrandbits(100) + 2])
+        ops, nxt, flag = [], 0, {}
+        expect = []
+        for _ in range(rng.randint(2, 10)):
+            r = rng.random()
+            v = rng.choice([init, init, 0, rng.randint(1, 50)])
+            if r < 0.4:
+                i = rng.randrange(cap); ops.append(f"set {hex(i)} {hex(v)}"); flag[i] = 1; nxt = max(nxt, i + 1)
+            elif r < 0.6:
+                i = rng.randrange(cap); ops.append(f"del {hex(i)}")
+                if i < nxt:
+                    flag[i] = 0
+            elif r < 0.8:
+                if nxt < cap:
+                    ops.append(f"app {hex(v)}"); flag[nxt] = 1; nxt += 1
+                else:
+                    continue
+            else:
+                st = rng.randrange(cap); n = rng.randint(1, min(3, cap - st))
+                ops.append(f"range {hex(st)} {','.join(hex(rng.choice([init, 0, 9])) for _ in range(n))}")
+                for j in range(st, st + n):
+                    flag[j] = 1
+                nxt = max(nxt, st + n)
+            ops += ["empty", "next"]
+            expect.append(("[" + ",".join(str(i) for i in range(nxt) if flag.get(i, 0) != 1) + "]", str(nxt)))
+        for backend in ("full", "opt"):
+            out = core.run_impl(zkh, [f"tree newinit {backend} {depth} {hex(init)}"] + ops)[1:]
+            obs = [(out[j], out[j + 1]) for j in range(len(out) - 1) if ops[j] == "empty"]
+            run.count_case(("newinit-empty", backend, depth, init, tuple(ops)))
+            run.cov["traces_validated_against_impl"] += 1
+            for t, (got, want) in enumerate(zip(obs, expect)):
+                if got != want:
+                    bad += 1
+                    if bad <= 2:
+                        cut = [j for j in range(len(ops)) if ops[j] == "empty"][t] + 2
+                        run.violation({"property": run.pid, "kind": "impl-vs-spec", "stream": "custom-initial-leaf", "ops": [f"tree newinit {backend} {depth} {hex(init)}"] + ops[:cut],
+                                       "observed_impl": list(got), "expected_spec": list(want),
+                                       "detail": "the empty list / leaf count of a tree created with a non-default initial leaf differs from the bookkeeping of the operations performed"})
+                    break
     # one range write longer than any internal batch (2^14 leaves) at an unaligned start: every written position is occupied, also the tail
     big = []
     for backend in (["pm", "opt"] if quick else treegen.BACKENDS):
@@ -63,6 +111,6 @@ def check(run):
             return "C15-pm-reopen-flags"
         return None
     run.differential("empty-pm-reopen", seqs, classify=classify_reopen)
-    run.rules.append("random histories over every mutator (single write, append, delete, range write, batch update outside the open C08 shapes) on each backend, depths 2..8 and 10/16/20; `empty` and the high-water mark observed after every op; directed sequences through every batch-update dispatch arm (one removal only, leaves only, nothing) on occupied positions; persistent backend additionally across close/reopen; distinct = distinct op sequence")
+    run.rules.append("trees created with a non-default initial leaf (Full, Optimal; writes of the initial leaf itself and of the default leaf) against the operation bookkeeping; the two in-memory trees over a second hasher whose default leaf is not zero; random histories over every mutator (single write, append, delete, range write, batch update outside the open C08 shapes) on each backend, depths 2..8 and 10/16/20; `empty` and the high-water mark observed after every op; directed sequences through every batch-update dispatch arm (one removal only, leaves only, nothing) on occupied positions; persistent backend additionally across close/reopen; distinct = distinct op sequence")
 
     run.confirm_witnesses()
